@@ -874,6 +874,42 @@ func TestC13(t *testing.T) {
 		}
 		run(kindSets[ki], seq, []string{kn[ki], "random"})
 	}
+	// a stream that is not being read receives message, message and its FINAL envelope (one in the loop's hand, one queued,
+	// the final one in the read loop's hands), then its context ends without the caller draining anything; then a probe
+	// call and its reply, the read failure, another call: the connection's read loop must not stay behind the dead stream
+	for _, end := range []string{"cancel", "expire"} {
+		for fi, fin := range []*EnvSpec{
+			{Call: 0, Hdr: "ok:0", Status: &[2]int64{0, 0}, Trl: "ok:0"},
+			{Call: 0, Hdr: "ok:0", Status: &[2]int64{9, 7}, Trl: "ok:5"},
+			{Call: 0, Hdr: "ok:0", Trl: "ok:0", Rst: true},
+			{Call: 0, Hdr: "ok:0", Body: i64(4403), Trl: "none"},
+		} {
+			for v := 0; v < 3; v++ {
+				if idx%nsh != shard {
+					idx++
+					continue
+				}
+				acts := []CAct{{Op: "stream"}}
+				if v == 1 {
+					acts = append(acts, CAct{Op: "header", C: 0})
+				}
+				acts = append(acts, CAct{Op: "deliver", Env: &EnvSpec{Call: 0, Hdr: "ok:0", Body: i64(4401), Trl: "none"}},
+					CAct{Op: "deliver", Env: &EnvSpec{Call: 0, Hdr: "ok:0", Body: i64(4402), Trl: "none"}},
+					CAct{Op: "deliver", Env: fin})
+				if v == 2 {
+					acts = append(acts, CAct{Op: "tick", B: 1000})
+				}
+				acts = append(acts, CAct{Op: end, C: 0}, CAct{Op: "unary", B: 47},
+					CAct{Op: "deliver", Env: &EnvSpec{Call: 1, Hdr: "ok:0", Body: i64(4404), Trl: "ok:0"}},
+					CAct{Op: "failread"}, CAct{Op: "recv", C: 0}, CAct{Op: "unary", B: 48})
+				sc := clientScenario{Acts: acts, WithStats: idx%2 == 0, Tags: []string{"full-queue-then-final-then-" + end, fmt.Sprintf("final=%d", fi)}}
+				if want(idx) {
+					runClientScenarioAs(t, idx, "c13", sc, em, "C13Step", nil)
+				}
+				idx++
+			}
+		}
+	}
 	// "-bin" response metadata (header / trailer) whose wire value has EVERY length mod 4 (0..9 characters), padded and
 	// unpadded, valid and invalid alphabet: for a stream (Header, RecvMsg, Trailer) and for a unary call, with and without a
 	// stats handler (a unary reply's metadata is only decoded when one is installed); then a probe call
